@@ -923,3 +923,24 @@ package wire
 //@   atreturn [cancel-silent] {C12} version == 80877102 ==> (OutSame() && #nParse == old(#nParse) && #nExec == old(#nExec) && #nSession == old(#nSession) && #nAccept == old(#nAccept) && #nValidate == old(#nValidate))
 //@   atreturn [no-session-without-auth] {C01} #nAccept == old(#nAccept) ==> (#nParse == old(#nParse) && #nExec == old(#nExec) && #nSession == old(#nSession) && #nZ == old(#nZ))
 //@   modifies everything
+
+// ---- server construction and shutdown -----------------------------------------------------
+
+//@ func NewStatement
+//@   props C07 C04
+//@   requires [options-nonnil] each(options, o, o != nil)
+//@   ensures result != nil && fresh(result)
+//@   modifies nothing
+//@   loop 0
+//@     invariant [range] -1 <= $index && $index + 1 <= len(options) && stmt != nil && stmt > old(#alloc)
+//@     decreases len(options) - $index
+
+//@ func (*Server).Close
+//@   props C16 C04
+//@   requires srv != nil
+//@   requires [closer-invariant] {C16} srv.closer != nil && (chanclosed(srv.closer) <==> srv.closing.#aval)
+//@   ensures [closer-invariant] {C16} chanclosed(srv.closer) <==> srv.closing.#aval
+//@   ensures [idempotent] {C16} old(srv.closing.#aval) ==> (result == nil && srv.closing.#aval && srv.wg.#wgcnt == old(srv.wg.#wgcnt))
+//@   ensures [closing-set] {C16} srv.closing.#aval && result == nil
+//@   ensures [waited] {C16} !old(srv.closing.#aval) ==> srv.wg.#wgcnt == 0
+//@   modifies srv.closing.#aval, srv.wg.#wgcnt, chanstate(srv.closer)
